@@ -345,7 +345,12 @@ def apply_rules(text, relpath):
                r'vf_filter_map_collect(\1, \2)', text)
     text = sub('R6', r'(\w+)\.iter\(\)\.any\(', r'vf_iter_any(&\1, ', text)
     # D7: const initialiser with a shift: value axiomatised in contracts/avp.vfc, checked by rustc const-eval in vf_kani.rs
-    text = sub('D7', r'^([ \t]*)(const MAX_LENGTH: u16 = \(1 << Self::LENGTH_BITS\) - 1;)', r'\1#[verifier::external_body] \2', text, re.M)
+    if re.search(r'const MAX_LENGTH: u16 = \(1 << Self::LENGTH_BITS\) - 1;', text):
+        if not re.search(r'const LENGTH_BITS: u8 = 10;', text):
+            raise LostAnchor('D7: LENGTH_BITS is no longer the literal 10; MAX_LENGTH stand-in does not apply')
+        # the initialiser `(1 << 10) - 1` is replaced by its value (Verus leaves `<<` uninterpreted in const context);
+        # `const _: () = { assert!(AVP::MAX_LENGTH == 1023) }` in vf_kani.rs has rustc check the value on the real crate
+        text = sub('D7', r'const MAX_LENGTH: u16 = \(1 << Self::LENGTH_BITS\) - 1;', 'const MAX_LENGTH: u16 = 1023;', text)
     # D4: the phf table is outside the image (MessageType::try_read is external_body, decided by Kani)
     text = sub('D4', r'static MESSAGE_CODE_TO_TYPE.*?\n\};\n', '', text, re.S)
     return text
